@@ -413,3 +413,24 @@ def closure_arg_source(facts, closure_fn, arg_index=2):
             if e[0] == "agg" and e[1] == "closure" and e[2] == closure_fn.key and ai > 0:
                 return parent, pb.expr_of_op(t["args"][0]), t["f"].get("name")
     return None
+
+
+def closure_capture(facts, closure_fn, field_idx):
+    """(parent_fn, expression of the captured operand) for capture #field_idx of a closure"""
+    pk = closure_fn.lexical_parent or closure_fn.parent
+    parent = facts.fn_opt(pk) if pk else None
+    if parent is None:
+        return None
+    pb = parent.body
+    for b in range(pb.n):
+        for st in pb.stmts(b):
+            if st[0] == "=" and st[2][0] == "agg" and st[2][1].get("k") == "closure" and st[2][1].get("closure") == closure_fn.key:
+                ops = st[2][2]
+                if field_idx < len(ops):
+                    return parent, pb.expr_of_op(ops[field_idx])
+    return None
+
+
+def ident(e):
+    """identity string of the object an expression denotes (refs/derefs/Deref calls stripped)"""
+    return expr_str(strip(e))
